@@ -17,7 +17,8 @@ from vlib import gen_formula as G
 PROPERTY = "C12"
 LEVEL = "exploration"
 RULE = ("A reaction line is rendered from a description: 0-4 terms per side over a pool of 1-5 space-free keys (G1 "
-        "formulas incl. keys beginning with ( [ {, charges, phases, primes, hydrates, prefixes; plain names), each term "
+        "formulas incl. keys beginning with ( [ {, charges, phases, primes, hydrates, prefixes; plain names; names "
+        "beginning with digits such as 13CO2, 15(NH4)2SO4, 2-propanol), each term "
         "written bare / 'n X' / 'n * X' / 'n.0 X' / decimal 'n.d X' (n 0..999, d a multiple of 1/8 in 1-3 decimals), "
         "optionally as inactive group '(n X)', repeats summed, arrow "
         "'->' or '=', optional '; param' (int, float over 35 decades, None) and '; name=.., ref=..'; the expected "
@@ -27,7 +28,8 @@ RULE = ("A reaction line is rendered from a description: 0-4 terms per side over
         "non-integral decimals 0.001..999.999 with 1-3 decimals, the latter with checks=()), printed, parsed back and "
         "compared field by field with the description (coefficients exactly; parameter to 3 significant digits, exactly "
         "when written with <= 3).  Systems: 1-6 "
-        "reaction lines with comments, blank and indented lines.  Non-trivial = a key beginning with a bracket or carrying "
+        "reaction lines with comments, blank and indented lines; 40 % pass `comment_tokens` (1-3 of # // -- %% ! "
+        "'REM ' ;; /*) and write their comment lines (plain, indented, containing arrows) with those.  Non-trivial = a key beginning with a bracket or carrying "
         "a charge, together with a coefficient > 1 or a repeated key; distinct by case digest.")
 ASSUMPTIONS = ["vlib/gen_formula.py renders the G1 species keys (text only; the composition plays no role here)",
                "keys that are entirely one parenthesised group are excluded (ambiguous with an inactive group): such a "
@@ -39,6 +41,11 @@ ASSUMPTIONS = ["vlib/gen_formula.py renders the G1 species keys (text only; the 
                "a printed float parameter is compared with float('%.3g' % p) (the documented printed precision)"]
 
 PLAIN = ["A", "B", "C", "X", "Y", "R1", "foo", "prod_2", "H2O", "O2", "NaCl", "OH-", "Fe+3", "e-"]
+# keys that start with digits directly followed by a letter, a bracket or punctuation (isotope labels, locants):
+# '13CO2', '3He', '18O2', '2H2O', '14C6H12O6', '15(NH4)2SO4', '99[TcO4]-', '2-propanol', '1,2-dichloroethane' ...
+DIGIT_HEADS = ["13", "2", "3", "18", "14", "1", "15", "99", "235", "0"]
+DIGIT_TAILS = ["CO2", "He", "O2", "H2O", "C6H12O6", "H+", "(NH4)2SO4", "[TcO4]-", "{Fe}+3", "A", "foo", "-propanol",
+               ",2-dichloroethane", "'X", "CO3-2(aq)"]
 
 
 # ---------------------------------------------------------------------------------------------
@@ -69,6 +76,8 @@ def keys(draw, formula_only=False):
     k = draw(st.integers(0, 9))
     if k < 2 and not formula_only:
         return {"name": draw(st.sampled_from(PLAIN))}
+    if k == 2 and not formula_only:
+        return {"name": draw(st.sampled_from(DIGIT_HEADS)) + draw(st.sampled_from(DIGIT_TAILS))}
     f = draw(G.formulas(max_depth=2, max_terms=3, max_hydrates=1))
     if k >= 7 and not f["electron"]:
         # a key that begins with a bracket: put a group in front
@@ -97,6 +106,18 @@ def _distinct(pool):
             seen.add(t)
             out.append(k)
     return out
+
+
+def digit_key_labels(terms, kt):
+    """how a key beginning with a digit is written in a line"""
+    out = set()
+    for t in terms:
+        if kt[t["k"]][:1].isdigit():
+            out.add("digit_key")
+            out.add("digit_key:" + ("bare" if t["c"] == "" else "star" if t["star"] else "coefficient"))
+            if t["inactive"]:
+                out.add("digit_key:inactive")
+    return sorted(out)
 
 
 def key_is_interesting(t):
@@ -344,6 +365,8 @@ def check_parse(case, ctx):
         ctx.label("key_starts_with_paren")
     if any(k[:1] in "[{" for k in used):
         ctx.label("key_starts_with_[{")
+    for lbl in digit_key_labels(case["reac"] + case["prod"], kt):
+        ctx.label(lbl)
     if any(k[:1] == "(" and any(t["inactive"] and kt[t["k"]] == k for t in terms) for k in used):
         ctx.label("paren_key_inside_inactive_group")
     if case["kw"]:
@@ -530,6 +553,10 @@ def check_roundtrip(case, ctx):
     ctx.label(*coef_labels(c for _, c in case["reac"] + case["prod"]))
     if any(k[:1] == "(" for k in used):
         ctx.label("key_starts_with_paren")
+    if any(k[:1].isdigit() for k in used):
+        ctx.label("digit_key")
+        if any(kt[i][:1].isdigit() and c == "1" for i, c in case["reac"] + case["prod"]):
+            ctx.label("digit_key:bare")
     if no_checks:
         ctx.label("checks=()")
     ctx.nontrivial(any(key_is_interesting(k) for k in used) and any(c != "1" for _, c in case["reac"] + case["prod"]))
@@ -548,6 +575,9 @@ def check_roundtrip(case, ctx):
 # ---------------------------------------------------------------------------------------------
 
 _COMMENTS = ["# comment", "#", "# A -> B; 3", "   # indented; with = and ->", "#2 H2 + O2 -> 2 H2O"]
+# the optional `comment_tokens` argument: single- and multi-character tokens, none of which can begin a reaction line
+_TOKENS = ["#", "//", "--", "%%", "!", "REM ", ";;", "/*"]
+_COMMENT_BODIES = ["", " comment", " A -> B; 3", "; with = and ->", "2 H2 + O2 -> 2 H2O", " X = Y; 1e-3", "#"]
 
 # balanced real reactions (hand-checked): used with chempy's *default* checks (balance, duplicates, keys)
 POOL = [
@@ -588,17 +618,27 @@ def system_cases(draw):
         rx = [draw(lines(kinds=("Reaction",), pool=pool, allow_decimal=False))
               for _ in range(draw(st.integers(1, 6)))]
         mode = "free"
+    tokens = None
+    if draw(st.integers(0, 9)) >= 6:
+        tokens = draw(st.lists(st.sampled_from(_TOKENS), min_size=1, max_size=3, unique=True))
     layout = []
     for _ in rx:
         pre = []
-        for _ in range(draw(st.integers(0, 2)) if draw(st.integers(0, 9)) >= 6 else 0):
-            pre.append(draw(st.sampled_from(_COMMENTS + ["", "   "])))
+        for _ in range(draw(st.integers(0, 2)) if draw(st.integers(0, 9)) >= (6 if tokens is None else 3) else 0):
+            if tokens is None:
+                pre.append(draw(st.sampled_from(_COMMENTS + ["", "   "])))
+            elif draw(st.integers(0, 9)) == 0:
+                pre.append(draw(st.sampled_from(["", "   "])))
+            else:       # token (any of the given ones) + body, plain or indented
+                pre.append(draw(st.sampled_from(["", "", "   ", "\t"])) + draw(st.sampled_from(tokens))
+                           + draw(st.sampled_from(_COMMENT_BODIES)))
         layout.append({"pre": pre, "indent": draw(st.sampled_from([0, 0, 0, 1, 4])),
                        "trail_ws": draw(st.sampled_from([0, 0, 2]))})
     s = draw(st.integers(0, 9))
     subst = "none" if s < 5 else ("given" if s < 8 else "missing")
     return {"mode": mode, "factory": factory, "rxns": rx, "layout": layout, "final_newline": draw(st.booleans()),
-            "subst": subst, "perm": draw(st.integers(0, 10 ** 6)), "j": draw(st.integers(0, 11))}
+            "subst": subst, "perm": draw(st.integers(0, 10 ** 6)), "j": draw(st.integers(0, 11)),
+            "comment_tokens": tokens, "tokens_as": draw(st.sampled_from(["tuple", "list"]))}
 
 
 def _permuted(lst, seed):
@@ -635,6 +675,11 @@ def check_system(case, ctx):
         ctx.label("comments_or_blank")
     if any(lay["indent"] for lay in case["layout"]):
         ctx.label("indented")
+    if any(k[:1].isdigit() for k in union):
+        ctx.label("digit_key")
+    tokens = case.get("comment_tokens")
+    ctx.label("comment_tokens=" + ("default" if tokens is None else "%d%s" % (
+        len(tokens), ":multichar" if any(len(t) > 1 for t in tokens) else "")))
     ctx.nontrivial(len(case["rxns"]) >= 2 and any(key_is_interesting(k) for k in union))
     kw = {}
     if case["mode"] != "pool":
@@ -650,6 +695,8 @@ def check_system(case, ctx):
         if case["subst"] == "missing":
             missing = union[case["j"] % len(union)]
             substances = [k for k in substances if k != missing]
+    if tokens is not None:
+        kw["comment_tokens"] = tuple(tokens) if case.get("tokens_as") == "tuple" else list(tokens)
     rs = sut(ReactionSystem.from_string, text, substances, **kw)
     if missing is not None:
         ctx.label("expect_rejection")
@@ -697,6 +744,8 @@ def check_system_roundtrip(case, ctx):
     no_checks = any(needs_no_checks(e) for e in exps)
     built = [build_object(rx, True) for rx in case["rxns"]]
     ctx.label("factory=" + case["factory"], "subst=" + case["subst"], "nrxn=%d" % len(built))
+    if any(k[:1].isdigit() for k in union):
+        ctx.label("digit_key")
     ctx.label(*coef_labels(c for rx in case["rxns"] for _, c in rx["reac"] + rx["prod"]))
     if no_checks:
         ctx.label("rxn_parse_kwargs:checks=()")
